@@ -226,5 +226,10 @@ fn tables_modes() -> vk::std::string::String {
             }
         }
     }
+    // ElementType::ROOT lies inside the tables (leaf vx_root_type of unit parseelem)
+    inst += 1;
+    if (ElementType::ROOT.typ as usize) >= DATATYPES.len() || (ElementType::ROOT.def as usize) >= ELEMENTS.len() {
+        return format!("FAIL ElementType::ROOT = ({}, {}) lies outside ELEMENTS / DATATYPES", ElementType::ROOT.def, ElementType::ROOT.typ);
+    }
     format!("OK {} instances", inst)
 }
